@@ -281,6 +281,41 @@ def overlap_cases():
     return cases
 
 
+def capture_cases():
+    """fixed `replace` cases in regex mode: every pattern of c16_cli.GROUP_PATTERNS on a text where some match leaves a group
+    unset, with replacements that mention set / unset / non-existent groups, `$0`, `${name}`, `$$`; dry-run, diff preview, -y;
+    plus literal mode with `$` in the replacement"""
+    text = ("set_alpha(1); get_beta(2);\nget_x()\net_z set_y\nfoo bar\nabcx x bx\n12-ab -cd\nbbab yyz z\na_b a_b_c\nq7 7\n5abc abc\n"
+            "éfoo foo\n  indented\n\nb\n").encode()
+    cases = []
+    reps = ["$1", "$2", "[$1|$2|$3]", "$0 ${1}x $12 $$", "${verb}_${what}${n}${nope}"]
+    modes = [["--dry-run"], ["--dry-run", "--preview", "diff"], ["-y"]]
+    k = 0
+    for pat in cli.GROUP_PATTERNS:
+        for rep in reps:
+            mode = modes[k % 3]
+            k += 1
+            cases.append({"idx": len(cases), "family": "capture-groups", "search": pat, "replace": rep,
+                          "tree": [["f", cli.H("a.txt"), cli.H(text)]], "state": [],
+                          "steps": [{"argv": ["replace", "--no-auto-init"] + mode + ["--", pat, rep]}]})
+    for rep in ["$", "$1", "$$", "${", "$0x", "a$b"]:
+        cases.append({"idx": len(cases), "family": "capture-groups:literal", "search": "foo", "replace": rep,
+                      "tree": [["f", cli.H("a.txt"), cli.H(text)]], "state": [],
+                      "steps": [{"argv": ["replace", "--no-auto-init", "--no-regex", "-y", "--", "foo", rep]},
+                                {"argv": ["undo", "latest"]}]})
+    return cases
+
+
+def capture_regression(ctx):
+    cases = capture_cases()
+    for case, res in zip(cases, run_cases(cases, timeout=30)):
+        ctx.case(("capture", case["search"], case["replace"], case["idx"]))
+        ctx.count("capture-groups:status=" + str(res[0]["rc"]))
+        if examine(ctx, case, res, "replace with capture-group references (" + case["family"] + ")"):
+            return True
+    return False
+
+
 def overlap_regression(ctx):
     cases = overlap_cases()
     for case, res in zip(cases, run_cases(cases, timeout=30)):
@@ -453,6 +488,9 @@ def gen_inprocess(rng, n):
                                              for _ in range(rng.randint(1, 5)))
         reqs.append(f"panic_compound {hexs(ident)} {hexs(rng.choice(['foo_bar', 'Foo Bar', 'foo', 'fooBar', 'Bar']))} "
                     f"{hexs(rng.choice(['baz_qux', 'Qux', 'Baz Qux', 'q']))}")
+    for _ in range(n // 3):
+        pat, rep, content, mode = cli.gen_group_replace(rng)
+        reqs.append(f"panic_replace {hexs(content)} {hexs(pat)} {hexs(rep)} {'literal' if '--no-regex' in mode else 'regex'}")
     return reqs
 
 
@@ -513,6 +551,12 @@ def cli_case_for(req):
         case["steps"] = [{"argv": ["plan"] + base + ["--dry-run"] + acr + ["--", text, repl]},
                          {"argv": ["plan"] + base + ["--dry-run"] + acr + ["--", "foo_bar", text]},
                          {"argv": ["search"] + base + acr + ["--", text]}]
+    elif op == "panic_replace":
+        pat, rep = txt(f[2]), txt(f[3])
+        case["search"], case["replace"] = pat, rep
+        case["tree"] = [["f", H("a.txt"), H(common.unhex(f[1]))]]
+        extra = ["--no-regex"] if f[4] == "literal" else []
+        case["steps"] = [{"argv": ["replace"] + base + extra + ["--dry-run", "--", pat, rep]}]
     elif op in ("panic_boundary", "panic_find"):
         data = common.unhex(f[1])
         vs = [txt(v) for v in f[2:]] if op == "panic_find" else ["foo", "A", "z9"]
@@ -550,8 +594,9 @@ def inprocess(ctx, n):
             continue
         # the model answers `nopanic` (proved safe), `panic` (exact characterisation says the code panics today) or `any`
         if op == "panic_compound" and i == "panic":
-            first = first or (r, i, m, "find_compound_variants panics on an identifier of a shape the identifier extractor produces "
-                                       "(latent slice in untouched_text_survives_rejoin, see classification.json)")
+            first = first or (r, i, m, "find_compound_variants panics on an identifier of a shape the identifier extractor produces")
+        elif op == "panic_replace" and i == "panic":
+            first = first or (r, i, m, "create_simple_plan (the planner of `replace`) panics on this content / pattern / replacement")
         elif i == "panic" and m in ("nopanic", "no-empty-key"):
             first = first or (r, i, m, "the implementation panics where the model proves it cannot")
         elif i == "empty-key" and m == "no-empty-key":
@@ -564,7 +609,7 @@ def inprocess(ctx, n):
         # replay the disagreeing inputs through the CLI at once: a concrete failing command line beats a broken tie
         tried = 0
         for r2, i2, m2 in zip(reqs, impl, model):
-            if i2 == "panic" and m2 != "panic" and tried < 12:
+            if i2 == "panic" and m2 != "panic" and tried < 12:      # includes the `any` ops panic_replace / panic_compound
                 case = cli_case_for(r2)
                 if case is None:
                     continue
@@ -650,6 +695,8 @@ def run(ctx):
     if witnesses(ctx):
         return
     if overlap_regression(ctx):
+        return
+    if capture_regression(ctx):
         return
     if inprocess(ctx, 3000 if ctx.thorough else 600):
         return
